@@ -10,6 +10,7 @@ import (
 	"os"
 	"reflect"
 	"runtime"
+	"runtime/debug"
 	"sort"
 	"strconv"
 	"strings"
@@ -49,7 +50,7 @@ func runCases(fn lineFn, rep *reporter) {
 					rep.infra("bad case line: " + err.Error())
 					continue
 				}
-				fn([]byte(inner), rep)
+				safeCase(fn, []byte(inner), rep)
 			}
 		}()
 	}
@@ -82,6 +83,33 @@ func runCases(fn lineFn, rep *reporter) {
 	}
 	close(lines)
 	wg.Wait()
+}
+
+// safeCase runs one case; a panic that escapes the per-call guards while the LIBRARY is on the
+// stack (e.g. while the state is being observed) is real-code behaviour and reported as a
+// violation with the case attached; a panic of the harness itself is an infrastructure error.
+func safeCase(fn lineFn, raw []byte, rep *reporter) {
+	defer func() {
+		if r := recover(); r != nil {
+			stack := string(debug.Stack())
+			if strings.Contains(stack, "/repo/") {
+				rep.violate("panic-while-observing", raw, fmt.Sprint(r), "a value or an error", firstRepoFrames(stack))
+			} else {
+				rep.infra("harness panic: " + fmt.Sprint(r) + "\n" + stack)
+			}
+		}
+	}()
+	fn(raw, rep)
+}
+
+func firstRepoFrames(stack string) string {
+	var out []string
+	for _, l := range strings.Split(stack, "\n") {
+		if strings.Contains(l, "/repo/") && len(out) < 4 {
+			out = append(out, strings.TrimSpace(l))
+		}
+	}
+	return strings.Join(out, " <- ")
 }
 
 // ---------------------------------------------------------------------------
